@@ -4,8 +4,14 @@
 #include <memory>
 #include "common_types.h"
 
+#ifdef TEAKRA_VERIF
+struct TeakraVerifAccess; // verification hook: read/seed private state
+#endif
 namespace Teakra {
 class Apbp {
+#ifdef TEAKRA_VERIF
+    friend struct ::TeakraVerifAccess;
+#endif
 public:
     Apbp();
     ~Apbp();
